@@ -60,11 +60,6 @@ theorem reset_equiv (s1 s2 : AState) (h : ∀ f, isStable expect f = true → s1
 
 /-! ### Part C — statement at a time vs whole file -/
 
-/-- a runner state as `New`/`Reset` leave it (`exit`, `lastExit`, `handlingTrap`, `filename` are
-    classified `zeroed` in Part A) -/
-def Fresh (s : St) : Prop :=
-  s.exit = .zero ∧ s.lastExit = .zero ∧ s.handlingTrap = false ∧ s.filename = ""
-
 /-- nobody reads `$0`: neither the program, nor its EXIT traps, nor a trap already installed -/
 def NoArg0 (ss : List Stmt) (s : St) : Prop :=
   ss.all (fun c => !usesArg0 c) = true ∧ s.trap.all (fun c => !usesArg0Simple c) = true
@@ -82,11 +77,6 @@ def IncrementalAt (name : String) (ss : List Stmt) (s0 : St) : Prop :=
 /-- the full statement: false of the model, and of the code, because of `$0` (see below) -/
 def incremental_statement : Prop :=
   ∀ (name : String) (ss : List Stmt) (s0 : St), Fresh s0 → IncrementalAt name ss s0
-
-theorem fresh_inv {s0 : St} (h : Fresh s0) : Inv s0 ∧ s0.filename = "" ∧ pro "" s0 = s0 := by
-  obtain ⟨h1, h2, h3, h4⟩ := h
-  refine ⟨⟨h3, by rw [h1, h2], by rw [h1]; rfl, fun _ => h1⟩, h4, ?_⟩
-  cases s0; simp_all [pro]
 
 theorem incremental_unnamed (ss : List Stmt) (s0 : St) (h : Fresh s0) : IncrementalAt "" ss s0 := by
   obtain ⟨hinv, hfn, hpro⟩ := fresh_inv h
